@@ -67,6 +67,11 @@ CHECKS = {
          "DESIGN.md §7 C14",
          "go/types is the oracle; 'evaluates to the zero value' is judged by form (literal 0/\"\"/false, nil, element-less composite literal), not by execution.",
          "property-based testing: generated types, emitted zero values differential-checked with go/types"),
+ "C08": ("exploration",
+         "Generated type graphs (structs and interfaces with colliding field/method names at equal and different embedding depths, value and pointer embedding, value/pointer receivers, a struct and an interface of another package with exported and unexported members) crossed with a selector name and an operand mode (variable, pointer, call result, map element, assignment target, method expression T.m / (*T).m, method value), one selector per program, driven through the builder: accept/reject must agree with go/types; for accepted selectors the expression type, the selection (kind + index path, via the canonical dump of the emitted code) and the object handed to Recorder.Member must agree. Sampling.",
+         "DESIGN.md §7 C08",
+         "go/types is the specification of selector resolution; empty interfaces are excluded (member access on `any` is an XGo extension, C11).",
+         "property-based testing: generated type graphs and selectors, differential against go/types"),
  "C19": ("exploration",
          "Model-based state-machine testing (rapid): random Set/Delete/At/Len/Keys/Iterate/String histories over a pool of generated type keys containing structurally identical but pointer-distinct rebuilds, aliases, permuted/flattened interfaces, permuted unions, renamed type parameters, separately created instantiations, deliberate hash-collision twins and same-named foreign types; after every step every observable is compared with an association list over types.Identical, and Identical=>equal-hash is checked on all pool pairs. Sampling, not proof: right level because the property quantifies over unbounded histories and type shapes.",
          "DESIGN.md §7 C19",
